@@ -1,5 +1,16 @@
 from .common import *
 
+def cmp_obligations(r, tier, ht, u=None, ureal=None, prefix=''):
+    """hmac::cmphmac accepts iff every tag byte matches: candidate tag = true tag xor an arbitrary difference pattern (all 2^512 tag fields);
+    native replay searches 65536 keys for one whose real tag shows the same wrong verdict.  Shared with C05 / C06 (the comparison is part of
+    "modification detected" and "wrong key rejected")."""
+    u = u or U_kern('kern_ufh', extra=UF_HASH)
+    ureal = ureal or U_kern('kern')
+    T = 300 if tier == 'quick' else 1800
+    for n in ((0, 5, 64, 130) if not prefix or tier != 'quick' else (0, 37)):
+        r.add(Ob(prefix + 'cmp-exact-h%d-len%d' % (ht, n), 'h_c08.c', [u], defines=['H_CMP', 'HT=%d' % ht, 'FLEN=%d' % (n + 48), 'POS=48', 'SREF_MSGMAX=%d' % (n + 8)],
+                 unwind=max(400, n + 130), timeout=T, envs=KERN_ENVS, replay_units=[ureal], replay_envs=['env_native.c', 'env_native_file.c']))
+
 def run(tier):
     r = Run('C08', tier)
     u = U_kern('kern_ufh', extra=UF_HASH)
@@ -14,9 +25,7 @@ def run(tier):
             for pos in ((0, 48) if n % 8 == 0 else (48,)):
                 r.add(Ob('hmac-value-h%d-len%d-pos%d' % (ht, n, pos), 'h_c08.c', [u], defines=['H_VALUE', 'HT=%d' % ht, 'FLEN=%d' % (n + pos), 'POS=%d' % pos, 'SREF_MSGMAX=%d' % (n + 8)],
                          unwind=max(400, n + pos + 80), timeout=T, envs=KERN_ENVS, replay_units=[ureal], replay_envs=['env_native.c', 'env_native_file.c']))
-        for n in (0, 5, 64, 130):
-            r.add(Ob('cmp-exact-h%d-len%d' % (ht, n), 'h_c08.c', [u], defines=['H_CMP', 'HT=%d' % ht, 'FLEN=%d' % (n + 48), 'POS=48', 'SREF_MSGMAX=%d' % (n + 8)],
-                     unwind=max(400, n + 130), timeout=T, envs=KERN_ENVS, replay_units=[ureal], replay_envs=['env_native.c', 'env_native_file.c']))
+        cmp_obligations(r, tier, ht, u, ureal)
         for n in (0, 16, 100, 150):
             r.add(Ob('write-tag-h%d-body%d' % (ht, n), 'h_c08.c', [u], defines=['H_WRITE', 'HT=%d' % ht, 'FLEN=%d' % (n + 48), 'SREF_MSGMAX=%d' % (n + 8)],
                      unwind=max(400, n + 130), timeout=T, envs=KERN_ENVS, replay_units=[ureal], replay_envs=['env_native.c', 'env_native_file.c']))
